@@ -80,7 +80,7 @@ fn q_text(q: u8) -> &'static str {
 }
 
 /// Upstream answer kinds.
-const KINDS: [&str; 26] = [
+const KINDS: [&str; 34] = [
     "pos-ttl10-aa",          // 0
     "pos-mixed-answer-5/20", // 1
     "pos-20-authority-5",    // 2
@@ -109,6 +109,18 @@ const KINDS: [&str; 26] = [
     "nodata-soa5000-then-ns5000",   // 23
     "nxdomain-ns5000-then-soa5000", // 24
     "nxdomain-soa5000-then-ns5000", // 25
+    // {positive, nodata, nxdomain} x {AD as asked, AD never} x {DNSSEC
+    // records iff DO, none}: the combinations not already above (16 and 19
+    // are AD+records, 0/6/8 are neither). "unvalidated" = the upstream does
+    // not validate (or the zone is insecure): records without AD.
+    "unvalidated-signed-pos10",             // 26 RRSIG iff DO, AD never
+    "unvalidated-signed-nodata7-nsec3",     // 27 SOA + (DO: RRSIG, NSEC3, RRSIG), AD never
+    "signed-nxdomain7",                     // 28 SOA + (DO: RRSIG, NSEC, RRSIG), AD iff AD|DO
+    "unvalidated-signed-nxdomain7-nsec3",   // 29 SOA + (DO: RRSIG, NSEC3, RRSIG), AD never
+    "ad-pos10-without-dnssec-records",      // 30 AD iff AD|DO, no DNSSEC records
+    "ad-nodata7-without-dnssec-records",    // 31
+    "ad-nxdomain7-without-dnssec-records",  // 32
+    "unvalidated-signed-pos10-all-sections", // 33 answer, authority NS and additional glue each with RRSIG iff DO, AD never
 ];
 const K_PROBE: u8 = 0; // what upstream answers when a probe is forwarded
 const K_TRANSPORT: u8 = 15;
@@ -228,6 +240,13 @@ fn rd_soa(m: u8, minimum: u32) -> Vec<u8> {
     for x in [3600u32, 600, 86400, minimum] {
         v.extend_from_slice(&x.to_be_bytes());
     }
+    v
+}
+fn rd_nsec3(m: u8) -> Vec<u8> {
+    // SHA-1, no opt-out, 0 iterations, no salt, 20 octet next hashed owner, bitmap {A}
+    let mut v = vec![1, 0, 0, 0, 0, 20];
+    v.extend_from_slice(&[m; 20]);
+    v.extend_from_slice(&[0, 1, 0x40]);
     v
 }
 fn rd_nsec() -> Vec<u8> {
@@ -351,6 +370,61 @@ fn render(kind: u8, qname: &[u8], qtype: u16, f: u8, m: u8) -> Option<(u16, [Vec
         21 => {
             h |= 5;
             s[1].push(soa(5000));
+        }
+        26 => {
+            s[0].push(ans(10, 0));
+            if dnssec {
+                s[0].extend(sig(10));
+            }
+        }
+        27 | 29 => {
+            if kind == 29 {
+                h |= 3;
+            }
+            s[1].push(soa(7));
+            if dnssec {
+                let n3: Vec<u8> = [&b"\x04h3h3"[..], ZONE].concat();
+                s[1].push(Rec { owner: ZONE.to_vec(), rtype: T_RRSIG, ttl: 7, rdata: rd_rrsig(T_SOA, m, 7) });
+                s[1].push(Rec { owner: n3.clone(), rtype: T_NSEC3, ttl: 7, rdata: rd_nsec3(m) });
+                s[1].push(Rec { owner: n3, rtype: T_RRSIG, ttl: 7, rdata: rd_rrsig(T_NSEC3, m, 8) });
+            }
+        }
+        28 => {
+            h |= 3;
+            s[1].push(soa(7));
+            if dnssec {
+                s[1].push(Rec { owner: ZONE.to_vec(), rtype: T_RRSIG, ttl: 7, rdata: rd_rrsig(T_SOA, m, 7) });
+                s[1].push(Rec { owner: ZONE.to_vec(), rtype: T_NSEC, ttl: 7, rdata: rd_nsec() });
+                s[1].push(Rec { owner: ZONE.to_vec(), rtype: T_RRSIG, ttl: 7, rdata: rd_rrsig(T_NSEC, m, 8) });
+            }
+            if asks {
+                h |= H_AD;
+            }
+        }
+        30 => {
+            s[0].push(ans(10, 0));
+            if asks {
+                h |= H_AD;
+            }
+        }
+        31 | 32 => {
+            if kind == 32 {
+                h |= 3;
+            }
+            s[1].push(soa(7));
+            if asks {
+                h |= H_AD;
+            }
+        }
+        33 => {
+            s[0].push(ans(10, 0));
+            s[1].push(ns(10));
+            s[2].push(glue(10));
+            if dnssec {
+                s[0].extend(sig(10));
+                s[1].push(Rec { owner: ZONE.to_vec(), rtype: T_RRSIG, ttl: 10, rdata: rd_rrsig(T_NS, m, 6) });
+                s[2].push(Rec { owner: ns_name(m), rtype: T_RRSIG, ttl: 10, rdata: rd_rrsig(T_A, m, 5) });
+            }
         }
         22 | 24 => {
             if kind == 24 {
@@ -970,6 +1044,13 @@ fn judge_step(cfg: &Cfg, steps: &[Step], run: &Run, i: usize) -> Verdict {
 
 // ---------------------------------------------------------------- statistics
 
+struct KindCounts([u64; KINDS.len()]);
+impl Default for KindCounts {
+    fn default() -> Self {
+        KindCounts([0; KINDS.len()])
+    }
+}
+
 #[derive(Default)]
 struct Local {
     histories: u64,
@@ -982,7 +1063,7 @@ struct Local {
     exact_bound: u64,
     nx_nosoa_served: u64,
     outcomes: HashMap<u32, u64>,
-    served_by_kind: [u64; KINDS.len()],
+    served_by_kind: KindCounts,
     by_adv: BTreeMap<u64, (u64, u64)>,
     by_cfg: [(u64, u64); CFGS.len()],
     by_shape: BTreeMap<&'static str, (u64, u64, u64)>,
@@ -1003,7 +1084,7 @@ impl Local {
             *self.outcomes.entry(k).or_insert(0) += v;
         }
         for i in 0..KINDS.len() {
-            self.served_by_kind[i] += o.served_by_kind[i];
+            self.served_by_kind.0[i] += o.served_by_kind.0[i];
         }
         for (k, v) in o.by_adv {
             let e = self.by_adv.entry(k).or_insert((0, 0));
@@ -1114,7 +1195,7 @@ fn eval_history(ctx: &Ctx, shape: &'static str, cfg_i: usize, steps: &[Step], lo
                 loc.by_cfg[cfg_i].0 += 1;
                 loc.by_shape.get_mut(shape).unwrap().1 += 1;
                 *loc.outcomes.entry(code).or_insert(0) += 1;
-                loc.served_by_kind[kind as usize] += 1;
+                loc.served_by_kind.0[kind as usize] += 1;
                 if code & O_EXACT_BOUND != 0 {
                     loc.exact_bound += 1;
                 }
@@ -1194,14 +1275,21 @@ fn main() {
     let adv2: Vec<u64> = if quick { vec![0, 10000] } else { vec![0, 5000, 5500, 10000, 11000] };
     // first probe of fill·probe·probe
     let adv2a: Vec<u64> = if quick { vec![0, 5000, 11000] } else { adv2.clone() };
-    // b.ex/A is the mirror image of a.ex/A: the quick tier leaves it out of the three-step shape
-    let fills2: Vec<Step> = fills.iter().filter(|f| !quick || f.q != 1).copied().collect();
-    let cfgs1: Vec<usize> = (0..CFGS.len()).collect();
+    // b.ex/A is the mirror image of a.ex/A: it is left out of the three-step shape
+    let fills2: Vec<Step> = fills.iter().filter(|f| f.q != 1).copied().collect();
+    // fill·probe: the quick tier leaves the mirror image b.ex/A out as well;
+    // config default+cache_truncated differs from default only in how a TC
+    // response is treated, so it is run over the TC fills only
+    let fills1: Vec<Step> = fills.iter().filter(|f| !quick || f.q != 1).copied().collect();
+    let cfgs1: Vec<usize> = vec![0, 1, 3];
+    const K_TC: u8 = 14;
     // thorough leaves out default+cache_truncated here: it differs from default only for the TC answer, which distinct+cache_truncated covers
     let cfgs2: Vec<usize> = if quick { vec![0] } else { vec![0, 1, 3] };
 
     // ---- shape 1: fill · probe
-    let items: Vec<(usize, Step)> = cfgs1.iter().flat_map(|&c| fills.iter().map(move |f| (c, *f))).collect();
+    let mut items: Vec<(usize, Step)> = cfgs1.iter().flat_map(|&c| fills1.iter().map(move |f| (c, *f))).collect();
+    items.extend(fills1.iter().filter(|f| f.ans == K_TC).map(|f| (2usize, *f)));
+    let n_items1 = items.len();
     items.par_iter().for_each(|&(c, fill)| {
         wd.enter(|| json!({"shape": "fill-probe", "cfg": c, "fill": step_json(&fill)}));
         let mut loc = Local::default();
@@ -1314,6 +1402,8 @@ fn main() {
         (3, vec![Step { adv_ms: 0, q: 2, f: RD | AD, ans: 9 }, Step { adv_ms: 5000, q: 2, f: 0, ans: 0 }, Step { adv_ms: 11000, q: 2, f: RD, ans: 0 }]),
         (0, vec![Step { adv_ms: 0, q: 0, f: RD | DO, ans: 19 }, Step { adv_ms: 5000, q: 0, f: CD, ans: 0 }, Step { adv_ms: 0, q: 0, f: 0, ans: 0 }]),
         (0, vec![Step { adv_ms: 0, q: 0, f: RD, ans: 22 }, Step { adv_ms: 3_601_000, q: 0, f: RD, ans: 0 }]),
+        (0, vec![Step { adv_ms: 0, q: 0, f: RD | DO, ans: 33 }, Step { adv_ms: 1000, q: 0, f: RD, ans: 0 }]),
+        (0, vec![Step { adv_ms: 0, q: 0, f: RD | DO | CD, ans: 29 }, Step { adv_ms: 1000, q: 0, f: RD | CD | AD, ans: 0 }]),
     ];
     if !quick {
         sample_hist.push((0, vec![Step { adv_ms: 0, q: 0, f: RD | DO, ans: 18 }, Step { adv_ms: 5000, q: 0, f: RD, ans: 1 }, Step { adv_ms: 0, q: 0, f: 0, ans: 0 }, Step { adv_ms: 10000, q: 0, f: AD, ans: 0 }]));
@@ -1335,7 +1425,7 @@ fn main() {
                 })
                 .collect(),
         };
-        stats.sample(10, || json!({"cfg": cfg.name, "history": h.iter().map(step_text).collect::<Vec<_>>(), "observed": outcome}));
+        stats.sample(12, || json!({"cfg": cfg.name, "history": h.iter().map(step_text).collect::<Vec<_>>(), "observed": outcome}));
     }
 
     let g = global.into_inner().unwrap();
@@ -1346,7 +1436,7 @@ fn main() {
     for (k, v) in &g.outcomes {
         outcomes.insert(outcome_text(*k), *v);
     }
-    let served_by_kind: BTreeMap<&str, u64> = KINDS.iter().enumerate().map(|(i, k)| (*k, g.served_by_kind[i])).collect();
+    let served_by_kind: BTreeMap<&str, u64> = KINDS.iter().enumerate().map(|(i, k)| (*k, g.served_by_kind.0[i])).collect();
     let by_adv: BTreeMap<String, Value> = g.by_adv.iter().map(|(k, v)| (format!("{k:>13} ms"), json!({"served_from_cache": v.0, "forwarded": v.1}))).collect();
     let by_cfg: BTreeMap<&str, Value> = CFGS.iter().enumerate().map(|(i, c)| (c.name, json!({"served_from_cache": g.by_cfg[i].0, "forwarded": g.by_cfg[i].1}))).collect();
     let by_shape: BTreeMap<&str, Value> = g.by_shape.iter().map(|(k, v)| (*k, json!({"histories": v.0, "probes_served_from_cache": v.1, "probes_forwarded": v.2}))).collect();
@@ -1360,15 +1450,17 @@ fn main() {
             "distinct_nontrivial": g.nontrivial,
             "rule": "histories are pairwise distinct by construction (odometer over the product of the menus of each shape, per configuration); non-trivial = at least one step was answered without consulting the upstream (served from cache). states = nodes of the per-shape history trees (a node is the cache reached by one history prefix under one configuration; prefixes shared between shapes are counted once per shape); transitions = requests executed on the real cache::Connection",
             "exhaustive": true,
-            "bound_completed": format!("{}: fill·probe ({} configs x {} fills x {} advances x 16 flags), fill·probe·probe ({} configs x {} fills x {} advances x 16 flags x {} advances x 16 flags), fill·cross-probe ({} configs x {} fills x 3 other questions x {} advances x 16 flags){}",
-                if quick { "quick" } else { "thorough" }, cfgs1.len(), fills.len(), adv1.len(), cfgs2.len(), fills2.len(), adv2a.len(), adv2.len(), cfgs3.len(), fills.len(), adv3.len(),
+            "bound_completed": format!("{}: fill·probe (({} configs x {} fills + config default+cache_truncated x the TC fills = {} (config, fill) pairs) x {} advances x 16 flags), fill·probe·probe ({} configs x {} fills x {} advances x 16 flags x {} advances x 16 flags), fill·cross-probe ({} configs x {} fills x 3 other questions x {} advances x 16 flags){}",
+                if quick { "quick" } else { "thorough" }, cfgs1.len(), fills1.len(), n_items1, adv1.len(), cfgs2.len(), fills2.len(), adv2a.len(), adv2.len(), cfgs3.len(), fills.len(), adv3.len(),
                 if quick { "" } else { ", fill·fill'·probe·probe (default config, reduced menus, see menus.shape4)" }),
             "menus": {
                 "questions_fill": ["a.ex/A", "b.ex/A", "a.ex/RRSIG"],
                 "questions_cross_probe": ["a.ex/A", "b.ex/A", "a.ex/RRSIG", "A.EX/A"],
                 "flags": "all 16 of RD x CD x AD x DO",
-                "upstream_answers": KINDS,
+                "upstream_answers": KINDS.to_vec(),
                 "fills": fills.len(),
+                "fills_fill_probe": fills1.len(),
+                "fills_fill_probe_probe": fills2.len(),
                 "advances_ms_fill_probe": adv1,
                 "advances_ms_fill_probe_probe": [adv2a.clone(), adv2.clone()],
                 "configs": CFGS.iter().map(|c| format!("{c:?}")).collect::<Vec<_>>(),
